@@ -36,6 +36,9 @@ CHECKS = {
  'C14': dict(cat='proof', tech='Rocq proof (each interlock fires before the first content/parity effect; refuse/override iff; lock exclusion over any schedule) + trigger matrix on the real binary with byte snapshots before/after and live lock contention',
              text='Ordering theorems on the dispatcher/sync model with the exact trigger predicates transcribed from scan.c/sync.c/state.c; every trigger is exercised on every disk/level/copy with and without override against the real binary, refusals must leave content and parity byte-identical.',
              ref='4/C14'),
+ 'C10': dict(cat='proof', tech='Rocq proof (decode (encode now s) = normalise now s for every well-formed state, all records, run-length encoders, both format versions; copies identical; rewrite byte-identical under the displayed clock hypothesis, refuted without it) + byte-exact correspondence real->model (re-encode of every content file produced by driven histories) and model->real (generated states installed and rewritten by the tool)',
+             text='The content grammar reader/writer pair is transcribed record by record and the round trip is proved compositionally for all states; the transcription is pinned byte for byte against the real writer on reachable states and against the real reader/rewriter on generated boundary-valued states.',
+             ref='4/C10'),
  'C03': dict(cat='proof', tech='Rocq proof (MDS of the 6x251 Cauchy and 3x251 power matrices by polynomial root counting in MathComp; Gauss-Jordan without pivoting never meets a zero pivot; combination enumerator and sorting networks) + unit correspondence of raid_rec/raid_data/raid_check/raid_scan in all decoder families against the known original stripe',
              text='All 3.8e11 minors are settled by theorems, not enumeration; the decoder/validator models are executed against the real raid/*.c (int8, ssse3, avx2, dispatcher) on exhaustive small geometries and boundary-aimed large ones, the oracle being the original stripe.',
              ref='4/C03'),
